@@ -35,6 +35,7 @@ def parseDecl (j : Json) : R Decl := do
   | "value" => return .value (← fldStr j "v") false none
   | "method" => return .value "null" true (← optS (← fld j "optional"))
   | "none" => return .none
+  | "prop" => return .prop ⟨← optS (← fld j "value"), ← fldStr j "default", ← fldStr j "extname", ← fldStr j "export"⟩
   | k => throw s!"bad decl {k}"
 
 def parseOp (j : Json) : R (Bool × Op) := do
@@ -81,6 +82,17 @@ def jview (nv : String × Option AccView) : Json :=
     jarr [Json.str nv.1, Json.mkObj [("cmd", Json.bool v.isCmd), ("props", jprops (exportView tables v)),
       ("datainfo", dinfo), ("export", Json.str ((v.props.get? "export").getD "true"))]]
 
+def jmview (isInst : Bool) (nv : String × MView) : Json :=
+  match nv.2.prop with
+  | none => jarr [Json.str nv.1, Json.null]
+  | some p =>
+    if isInst then jarr [Json.str nv.1, Json.str (nv.2.value.getD p.dflt)]
+    else jarr [Json.str nv.1, jopt Json.str p.value, Json.str p.dflt, Json.str p.extname, Json.str p.exported]
+
+def isInstOwner : Owner → Bool
+  | .inst _ => true
+  | _ => false
+
 def ownerKey : Owner → String
   | .cls n => "cls:" ++ n
   | .inst n => "inst:" ++ n
@@ -99,8 +111,11 @@ partial def treePaths (ident pfx : String) : DTree → List (String × String)
       (c.zipIdx.flatMap (fun ci => treePaths (ident ++ "/" ++ toString ci.2) (pfx ++ "/" ++ toString ci.2) ci.1)))
 
 /-- (object identity, where it is seen) for everything the harness takes the `id()` of -/
+def propIdentities (w : World) : List ((Nat × String) × String) :=
+  w.classes.flatMap (fun c => c.propDict.map (fun nr => ((nr.2, ""), "cls:" ++ c.pure.decl.name ++ ":@prop/" ++ nr.1)))
+
 def identities (w : World) : List ((Nat × String) × String) :=
-  (owners w).flatMap (fun o => (w.accessiblesOf o).flatMap (fun nr =>
+  propIdentities w ++ (owners w).flatMap (fun o => (w.accessiblesOf o).flatMap (fun nr =>
     let here := ownerKey o ++ ":" ++ nr.1
     ((nr.2, ""), here) :: match w.heap.accAt nr.2 with
       | some a => match a.dtype with
@@ -120,6 +135,8 @@ def partitionOf (w : World) : Json :=
 
 def snapshot (w : World) : Json :=
   Json.mkObj [("dumps", Json.mkObj ((owners w).map (fun o => (ownerKey o, jarr ((describeH w o).map jview))))),
+              ("mdumps", Json.mkObj ((owners w).map (fun o => (ownerKey o, jarr ((describeM w o).map (jmview (isInstOwner o))))))),
+              ("mexport", Json.mkObj ((owners w).map (fun o => (ownerKey o, jprops ((describeM w o).filterMap exportM))))),
               ("part", partitionOf w)]
 
 def parseDumps (j : Json) : R (List (String × String)) := do
